@@ -564,6 +564,8 @@ const fn mul(a: u64, b: u64) -> u64 {
 #[inline(always)]
 #[allow(clippy::many_single_char_names)]
 fn inv(x: u64) -> u64 {
+    // x is in [0, 2M) range, so zero is represented by both 0 and M
+    let x = normalize(x);
     if x == 0 {
         return 0;
     };
